@@ -13,10 +13,11 @@ from ..pipeline import Leg
 ID = 'C16'
 HARNESS_BIN = 'c16'
 RUN_MODULE = 'Run.C16'
+COQ_EXTRA = ['Gen.C16Startup_ok']
 REPO_BINS = ['sccache']
 THEOREMS = ['C16_conservation', 'C16_bound', 'C16_bound_live', 'C16_no_leak', 'C16_no_leak_cancelled_waiter',
             'C16_no_leak_quiescent', 'C16_release_at_process_exit', 'C16_eof_moves_no_token', 'C16_next_runs_without_eof',
-            'C16_server_client_owns_its_pool', 'C16_every_acquired_holds_a_token',
+            'C16_server_client_owns_its_pool', 'C16_every_acquired_holds_a_token', 'C16_pool_survives_startup',
             'C16_full_parallelism_restored', 'C16_fifo', 'C16_never_stuck', 'C16_progress']
 ASSUMPTIONS = [
     'the token is released when the compiler PROCESS exits (Child::wait), not when its stdout/stderr reach EOF: a process it '
@@ -133,6 +134,9 @@ class Book:
                     b'token_held_without_process_or_spawn_error':
                     'a request holds a job token but neither started its compiler process nor reported the spawn failure '
                     'within the bound (the executable cannot be started: the token must go back at once)',
+                    b'hung_process_never_exited_request_keeps_its_token':
+                    'a compiler process that only sleeps a few ms and writes its output never exited within the bound (it is '
+                    'blocked, e.g. writing to a pipe the server does not drain): the request never ends and keeps its job token',
                     b'token_released_while_process_runs': 'the job token was given back while the compiler process was still running',
                     }.get(e[1] if len(e) > 1 else b'', None)
             self.vs.append('%s: %s' % (where, what or ('unexpected event ' + sx.dumps(e))))
@@ -167,7 +171,7 @@ def gen_det(rng, n, maxlen):
                     r = nxt
                     nxt += 1
                     used.append(r)
-                ops.append([b'req', r, rng.weighted([(0, 8), (1, 2), (2, 1), (3, 1), (4, 2), (5, 2), (6, 1), (7, 1), (8, 1), (9, 1), (10, 1), (11, 1), (12, 3)])])
+                ops.append([b'req', r, rng.weighted([(0, 8), (1, 2), (2, 1), (3, 1), (4, 2), (5, 2), (6, 1), (7, 1), (8, 1), (9, 1), (10, 1), (11, 1), (12, 3), (13, 1)])])
             elif kind == 'poll':
                 ops.append([b'poll'])
             else:
@@ -320,7 +324,7 @@ def gen_mt(rng, n, maxreq):
         workers = rng.choice([1, 2, 4])
         reqs = []
         for i in range(rng.range(k + 1, maxreq)):
-            kind = rng.weighted([(0, 6), (1, 3), (2, 2), (3, 1), (4, 2), (5, 2), (6, 1), (7, 1), (8, 1), (9, 1), (10, 1), (11, 1), (12, 3)])
+            kind = rng.weighted([(0, 6), (1, 3), (2, 2), (3, 1), (4, 2), (5, 2), (6, 1), (7, 1), (8, 1), (9, 1), (10, 1), (11, 1), (12, 3), (13, 1)])
             delay = rng.choice([0, 0, rng.below(3000), rng.below(12000)])
             dur = rng.range(1, 12)
             cancel = 0
@@ -467,6 +471,12 @@ def neighbours_env(case):
         yield [c, sh, burst, discard]
 
 
+def translate(rep):
+    from translator import c16_startup
+    info = c16_startup.run(pipeline.REPO, pipeline.COQ)
+    rep.oblige('translate:server_startup', True, repr(info))
+
+
 def legs(tier):
     def gdet(rng, tier):
         if tier == 'thorough':
@@ -593,7 +603,8 @@ def read_ledger(path):
 
 def e2e_run(rep, binp, rng, tier, idx, makeflags='none', nbursts=2, gc_phase=True, slow_phase=False):
     """One real server under `taskset -c 0-2`.  makeflags: what the server's (and the clients') environment says about a
-    jobserver of the surrounding build: none | fifo (live named fifo with 31 tokens) | fds (inherited pipe pair)."""
+    jobserver of the surrounding build: none | fifo (live named fifo with 31 tokens) | fds (inherited pipe pair) |
+    fdsclosed (--jobserver-auth=3,4 announced, descriptors 3 and 4 closed)."""
     root = '/dev/shm/c16e2e-%d-%d' % (os.getpid(), idx)
     shutil.rmtree(root, ignore_errors=True)
     os.makedirs(root)
@@ -619,6 +630,9 @@ def e2e_run(rep, binp, rng, tier, idx, makeflags='none', nbursts=2, gc_phase=Tru
         os.write(fd, b'+' * 31)
         keep_fds.append(fd)
         env['MAKEFLAGS'] = ' -j32 --jobserver-auth=fifo:' + fifo
+    elif makeflags == 'fdsclosed':
+        # an ordinary recipe of GNU make <= 4.3: the pipe is announced, its descriptors are NOT passed on
+        env['MAKEFLAGS'] = ' -j4 --jobserver-auth=3,4'
     elif makeflags == 'fds':
         r, w = os.pipe()
         os.set_inheritable(r, True)
@@ -707,21 +721,29 @@ def e2e_run(rep, binp, rng, tier, idx, makeflags='none', nbursts=2, gc_phase=Tru
                 pass
 
         total = killed = failing = 0
+        ok_paths = []
         for b in range(nbursts):
             n = rng.range(12, 40) if tier != 'quick' else (16 if b == 0 else rng.range(24, 40))
             procs = []
+            must_succeed = []
             for i in range(n):
                 kind = rng.weighted([('ok', 6), ('ppfail', 1), ('ccfail', 2), ('dup', 1), ('big', 1), ('kill', 1)])
                 shape = kind if kind in ('big', 'kill') else ''
-                if kind == 'dup' and nsrc[0] > 0:
-                    path = os.path.join(src, 's%d.c' % rng.range(1, nsrc[0]))
+                if kind == 'dup' and ok_paths:
+                    path = rng.choice(ok_paths)
                 else:
+                    if kind == 'dup':
+                        kind = 'ok'
                     path = new_source(kind)
+                    if kind in ('ok', 'big'):
+                        ok_paths.append(path)
                 if kind in ('ppfail', 'ccfail', 'kill'):
                     failing += 1
                 p = client(path, '0.05', shape)
                 kill_at = time.time() + rng.range(20, 250) / 1000.0 if rng.chance(1, 4) else None
                 procs.append((p, kill_at))
+                if kill_at is None and kind in ('ok', 'dup', 'big'):
+                    must_succeed.append(p)
                 total += 1
             # clients killed mid-request
             pending = [x for x in procs if x[1]]
@@ -736,10 +758,15 @@ def e2e_run(rep, binp, rng, tier, idx, makeflags='none', nbursts=2, gc_phase=Tru
                             pass
                         pending.remove(x)
                 time.sleep(0.005)
-            hung = finish_all([p for p, _ in procs], 90)
+            hung = finish_all([p for p, _ in procs], 45)
             if hung:
-                problems.append('burst %d: %d client(s) did not finish within 90 s (their requests never obtained a token)' % (b, hung))
+                problems.append('burst %d: %d client(s) did not finish within 45 s (their requests never obtained a token or never ended)' % (b, hung))
                 return problems, info
+            bad = [p for p in must_succeed if p.returncode != 0]
+            if bad:
+                problems.append('burst %d (server environment: %s jobserver flags): %d of %d well-formed requests were not served '
+                                '(client exit codes %s): they never obtained a job token / never ran'
+                                % (b, makeflags, len(bad), len(must_succeed), sorted(set(p.returncode for p in bad))[:4]))
             if not wait_idle(60):
                 problems.append('compiler processes still running / ledger unbalanced 60 s after burst %d' % b)
             mx, ent, lef, kam = read_ledger(ledger)
@@ -856,10 +883,11 @@ def extra(rep, known):
     binp = pipeline.repo_bin('sccache')
     rng = pipeline.Rng(rep.seed).fork('C16:e2e')
     if rep.tier == 'quick':
-        plan = [dict(makeflags='none', nbursts=2, gc_phase=True, slow_phase=True), dict(makeflags='fifo', nbursts=1, gc_phase=False)]
+        plan = [dict(makeflags='none', nbursts=2, gc_phase=True, slow_phase=True), dict(makeflags='fifo', nbursts=1, gc_phase=False),
+                dict(makeflags='fdsclosed', nbursts=1, gc_phase=False)]
     else:
         plan = [dict(makeflags='none', nbursts=6, gc_phase=True, slow_phase=True), dict(makeflags='fifo', nbursts=3, gc_phase=True),
-                dict(makeflags='fds', nbursts=2, gc_phase=False), dict(makeflags='none', nbursts=6, gc_phase=True)]
+                dict(makeflags='fds', nbursts=2, gc_phase=False), dict(makeflags='fdsclosed', nbursts=2, gc_phase=True), dict(makeflags='none', nbursts=6, gc_phase=True)]
     t0 = time.time()
     allp = []
     for i, kw in enumerate(plan):
@@ -872,12 +900,14 @@ def extra(rep, known):
         for p in problems:
             rep.violation('property', 'e2e', 'e2e run %d seed %d: %s' % (i, rep.seed, info), p)
         allp += problems
+        if problems:
+            break  # one failing server run is enough; the remaining environments would only repeat the waits
     rep.traces += rep.legs.get('mt', {}).get('cases', 0)  # every mt case is one recorded trace put to the model's `accept`
     rep.legs['e2e'] = dict(runs=len(plan), problems=len(allp), wall_s=round(time.time() - t0, 1))
     rep.oblige('e2e:ledger-bound-and-no-leak', not allp, '; '.join(allp[:5]) if allp else 'max concurrency <= tokens in every burst; saturating burst reached the token count')
     rep.rule.append('e2e: real sccache servers under `taskset -c 0-2` (token count = util::num_cpus() evaluated by the harness in the '
                     'same CPU set), one with no make flags and one started with MAKEFLAGS naming a LIVE fifo jobserver of 31 tokens '
-                    '(thorough: also an inherited fd pair); bursts of 12-40 clients through a wrapper compiler that records enter/leave '
+                    'and one started, as from an ordinary recipe of GNU make <= 4.3, with MAKEFLAGS announcing --jobserver-auth=3,4 while descriptors 3 and 4 are closed (thorough: also an inherited fd pair); every well-formed request of a client that is not killed must be served (exit 0); bursts of 12-40 clients through a wrapper compiler that records enter/leave '
                     'of the preprocessor run (-E) and the compile run in a flock-ed ledger and sleeps 50 ms; failing sources (#error / '
                     'undeclared identifier), compilers that print 300 kB of diagnostics or die of SIGKILL, ~25% clients SIGKILLed '
                     '20-250 ms into the request; monitor: concurrency in the ledger <= tokens at every line; then `tokens` compilers '
